@@ -5,9 +5,30 @@ from __future__ import annotations
 import json
 
 
+PATTERN = "0123456789abcdef" * 4 + "\n\"\u00e9\u2028\\ \r\n"
+
+
+def big_value(item):
+    """the JSON value of a `big` item: a tools/call whose argument is a text of about `size`
+    characters containing line breaks, quotes, non-ASCII"""
+    n = int(item["size"])
+    text = (PATTERN * (n // len(PATTERN) + 1))[:n]
+    return {"jsonrpc": "2.0", "id": item.get("id", 7), "method": "tools/call",
+            "params": {"name": "store", "arguments": {"blob": text}}}
+
+
 def build(item):
     """spec -> object handed to `write_stream.send(...)`"""
     k = item["k"]
+    if k == "big":
+        v = big_value(item)
+        if item["shape"] == "dict":
+            return v
+        if item["shape"] == "raw":
+            return json.dumps(v, ensure_ascii=False, separators=(",", ":"))
+        from chuk_mcp.protocol.messages import json_rpc_message as J
+
+        return J.JSONRPCRequest(id=v["id"], method=v["method"], params=v["params"])
     if k == "dict":
         return item["v"]
     if k == "raw":
@@ -46,6 +67,11 @@ def expected_line(item):
     """None (dropped) | {"json": value} | {"text": exact line}  — the property's reading:
     the message with absent optional members omitted; a pre-serialised string verbatim."""
     k = item["k"]
+    if k == "big":
+        v = big_value(item)
+        if item["shape"] == "raw":
+            return {"text": json.dumps(v, ensure_ascii=False, separators=(",", ":"))}
+        return {"json": v}
     if k == "dict":
         return {"json": item["v"]}
     if k == "raw":
@@ -81,6 +107,52 @@ def decode_lines(data: bytes):
         except ValueError:
             lines.append({"text": t})
     return {"lines": lines, "tail": tail.hex(), "cr": cr}
+
+
+def is_rejection(v) -> bool:
+    """a complete batch-rejection error as the client's reader task writes it back"""
+    return (isinstance(v, dict) and "method" not in v and v.get("id") is None and isinstance(v.get("error"), dict)
+            and v["error"].get("code") == -32600 and not isinstance(v["error"].get("code"), bool))
+
+
+def line_key(line, raw=False):
+    """comparable identity of a line (decoded value for JSON lines; exact text for raw / non-JSON)"""
+    import hashlib
+
+    if not raw and "json" in line:
+        k = "J:" + canon(line["json"])
+    elif "text" in line:
+        k = "T:" + line["text"]
+    else:
+        k = "X:" + line.get("hex", "")
+    return k if len(k) <= 400 else k[:40] + "...sha1:" + hashlib.sha1(k.encode("utf-8", "surrogatepass")).hexdigest() + f"...len:{len(k)}"
+
+
+def run_duplex(cases):
+    """real StdioClient, both directions: the writer task and the reader task (batch rejections)
+    write to a slow stdin.  Observation per case: the lines the child received (small ones in full,
+    large ones by key), whether each is JSON, the close flags."""
+    from . import stdio_h
+
+    out = []
+    for c, o in zip(cases, stdio_h.run_duplex_cases(cases, build)):
+        if "harness_error" in o:
+            out.append(o)
+            continue
+        data = b"".join(o["sends"])
+        d = decode_lines(data)
+        lines = []
+        for ln in d["lines"]:
+            e = {"is_json": "json" in ln, "key": line_key(ln), "text_key": line_key(ln, raw=True)}
+            if "json" in ln and len(ln.get("text", "")) <= 2000:
+                e["json"] = ln["json"]
+            lines.append(e)
+        out.append({
+            "lines": lines, "tail": d["tail"][:200], "nsends": len(o["sends"]), "nbytes": len(data),
+            "closed_before": o["before_close"]["closed"], "closed_after": o["after_close"]["closed"],
+            "sends_at_close": o["after_close"]["sends_at_close"], "delivered": o["delivered"],
+        })
+    return out
 
 
 def run_cases(cases):
